@@ -78,6 +78,8 @@ def damage(rng, g, k):
                 if c.kind in ('note', 'rest', 'chord', 'null', 'interp', 'barline', 'free'):
                     spots.append((li, ci))
     chosen = set(rng.sample(spots, min(k, len(spots))))
+    # the text of a malformed kern cell now and then also stands, validly, in a cell of a non-kern spine further down
+    echo = {}
     placed = []
     lineno = 0
     for li, (kind, payload) in enumerate(g.lines):
@@ -93,6 +95,14 @@ def damage(rng, g, k):
                     m = rng.choice(MALFORMED)       # an empty single-cell line is a blank line, not a cell
                 cells.append(m)
                 placed.append((lineno, ci, m, c.htype))
+                if c.htype in ('**kern', '**root') and m != '' and rng.random() < 0.5:
+                    later = [(l2, c2) for (l2, c2) in spots if l2 > li and (l2, c2) not in chosen and (l2, c2) not in echo
+                             and g.lines[l2][1][c2].kind == 'free']
+                    if later:
+                        echo[rng.choice(later)] = m
+            elif (li, ci) in echo:
+                cells.append(echo[(li, ci)])
+                placed.append((lineno, ci, echo[(li, ci)], c.htype))
             else:
                 cells.append(c.text)
         lines.append('\t'.join(cells))
